@@ -15,6 +15,10 @@ def search(prop, violations):
     outs = replay.run_sessions(sess)
     if frames(outs[0]) != frames(outs[1]):
         return {'session': sess[1], 'observed': outs[1], 'demanded': outs[0] + ' (the trace of the same failure in a fresh VM)', 'kind': 'stack trace depth grows with earlier failed evaluations'}
+    # an evaluation that succeeds has no stack trace on record, whatever failed before it
+    o_ok = replay.run_sessions([DEFS + ";;(g 1);;#trace (+ 1 2)"])[0]
+    if frames(o_ok) is not None:
+        return {'session': DEFS + ";;(g 1);;#trace (+ 1 2)", 'observed': o_ok, 'demanded': 'OK 3 [trace-frames=None] (a successful evaluation leaves no stack trace)', 'kind': 'the stack trace of an earlier failure is still on record after a successful evaluation'}
     if outs[2] != 'OK 3':
         return {'session': sess[2], 'observed': outs[2], 'demanded': 'OK 3', 'kind': 'an evaluation after failures differs'}
     if frames(outs[3]) != frames(outs[4]):
